@@ -390,6 +390,28 @@ func genJSONDoc(r *Rng, depth int) string {
 		case 1:
 			return Pick(r, []string{"true", "false"})
 		case 2:
+			if r.Chance(60) {
+				// random numbers of every length: integers well beyond 64 bits, long fractions, exponents
+				var b strings.Builder
+				if r.Chance(30) {
+					b.WriteByte('-')
+				}
+				nd := Pick(r, []int{1, 2, 5, 9, 15, 18, 19, 20, 20, 20, 21, 22, 25, 30, 40})
+				b.WriteByte(byte('1' + r.Intn(9)))
+				for k := 1; k < nd; k++ {
+					b.WriteByte(byte('0' + r.Intn(10)))
+				}
+				if r.Chance(30) {
+					b.WriteByte('.')
+					for k := r.Range(1, 20); k > 0; k-- {
+						b.WriteByte(byte('0' + r.Intn(10)))
+					}
+				}
+				if r.Chance(15) {
+					fmt.Fprintf(&b, "%s%d", Pick(r, []string{"e", "E", "e+", "e-"}), r.Intn(30))
+				}
+				return b.String()
+			}
 			return Pick(r, []string{"0", "-0", "1", "-12", "1.50", "0.000001", "1e5", "1E-7", "-2.5e+10", "123456789012345678901234567890", "1.0e400", "0.1e-30", "100", "1.000"})
 		case 3:
 			b, _ := json.Marshal(genString(r, 6))
